@@ -148,6 +148,8 @@ struct PeerWorld {
     todo: VecDeque<Proto>,
     /// unconfirmed emissions per protocol
     unconfirmed: [u32; 8],
+    /// step number of the latest emission per protocol (to tell "again in a later pass" from "twice in one pass")
+    last_emit_step: [u64; 8],
     /// after an illegal emission the automaton of that protocol is out of step until reconnect
     desync: [bool; 8],
     /// version the responder will accept
@@ -542,6 +544,8 @@ impl Sys {
                         continue;
                     }
                     let prior = w.unconfirmed[pr.index()];
+                    let same_step = prior > 0 && w.last_emit_step[pr.index()] == self.steps;
+                    w.last_emit_step[pr.index()] = self.steps;
                     match w.spec.advance(pr, Agency::Client, kind) {
                         Verdict::Ok(_) => {
                             w.unconfirmed[pr.index()] += 1;
@@ -552,7 +556,7 @@ impl Sys {
                             let st = w.spec.state(pr);
                             let why = if bad == Verdict::NoAgency { "the responder has agency in that state" } else { "the message is not allowed in that state" };
                             out.push(Finding {
-                                sig: format!("C28:{}:emit={kind}:spec_state={st}:unconfirmed_prior={}", pr.name(), if prior > 0 { "yes" } else { "no" }),
+                                sig: format!("C28:{}:emit={kind}:spec_state={st}:unconfirmed_prior={}{}", pr.name(), if prior > 0 { "yes" } else { "no" }, if same_step { ":twice-within-one-step" } else { "" }),
                                 what: format!(
                                     "{} made the initiator emit {}:{kind} to peer {qi} while the {} automaton of that connection (advanced by everything emitted so far and every reply delivered) is in state {st}: {why}; {} earlier {} message(s) to this peer were still waiting for their Sent confirmation",
                                     act.kind(),
